@@ -22,7 +22,8 @@ from .snap import snapshot, diff
 APPEND_KINDS = ['rows', 'rows', 'otherdt', 'list', 'scalar', 'zero', 'layout', 'badshape', 'badrank', 'unconv', '0d',
                 'manyrows', 'zero-badshape', 'zero-badrank', 'emptylist', 'npscalar', 'tuple']
 INVALID_KINDS = ('badshape', 'badrank', 'unconv', '0d', 'zero-badshape', 'zero-badrank', 'emptylist')
-TRUNC_TOKENS = [0, 1, 2, -1, -2, 'half', '-len', 'len', 'len+3', 'len-1', 2.0, 'a', None, 9, 'np:int8', 'np:uint8', 'np:int16', 'np:int64']
+TRUNC_TOKENS = [0, 1, 2, -1, -2, 'half', '-len', 'len', 'len+3', 'len-1', 2.0, 'a', None, 9, 'np:int8', 'np:uint8', 'np:int16', 'np:int64',
+                'f:0.13', 'f:0.37', 'f:0.58', 'f:0.8', 'f:0.97']
 
 
 @st.composite
@@ -41,7 +42,7 @@ def st_append_arg(draw, valid_only=False):
 
 @st.composite
 def st_array_op(draw, shape_rank, extra=()):
-    o = draw(st.sampled_from(['append', 'append', 'iterappend', 'set', 'trunc', 'trunc', 'mode', 'reopen', 'ctx', 'copy', 'failappend', 'sibling', 'recreate'] + list(extra)))
+    o = draw(st.sampled_from(['append', 'append', 'iterappend', 'set', 'trunc', 'trunc', 'mode', 'reopen', 'ctx', 'copy', 'failappend', 'sibling', 'recreate', 'overwrite-refused'] + list(extra)))
     if o == 'append':
         return {'o': 'append', 'arg': draw(st_append_arg())}
     if o == 'iterappend':
@@ -67,6 +68,10 @@ def st_array_op(draw, shape_rank, extra=()):
         return {'o': 'copy', 'chunklen': draw(st.sampled_from([None, 1, 2, 3]))}
     if o == 'recreate':
         return {'o': 'recreate', 'how': draw(st.sampled_from(['delete_array', 'rmtree']))}
+    if o == 'overwrite-refused':
+        return {'o': 'overwrite-refused', 'what': draw(st.sampled_from(['strings', 'bools', 'objects', 'structured']))}
+    if o == 'meta-own-mode':
+        return {'o': 'meta-own-mode', 'a': draw(st.sampled_from(['set', 'set', 'clear'])), 'k': draw(st.sampled_from(['a', 'b']))}
     if o == 'sibling':
         return {'o': 'sibling', 'start': draw(st_start()), 'via': draw(st.sampled_from(['create', 'create', 'open']))}
     if o == 'failappend':
@@ -164,7 +169,21 @@ def model_append(m, x):
     return np.frombuffer(buf, dtype=m.dtype).reshape((m.shape[0] + arr.shape[0],) + m.shape[1:]).copy()
 
 
+def trunc_grid_specs(nmax=130):
+    """Truncation of arrays of every length 2..nmax to a handful of shorter lengths, for row sizes 1, 8 and 12 bytes (byte offsets
+    computed by any means other than exact integer arithmetic go wrong for particular (length, new length) pairs only)."""
+    for n in range(2, nmax):
+        for (t, bo, tail) in (('int8', '<', []), ('float64', '>', []), ('float32', '<', [3])):
+            for k in sorted({n - 1, n // 2, n * 3 // 4, (n * 31) // 39, n * 15 // 26, 1}):
+                if 0 <= k < n:
+                    yield {'start': {'dt': {'t': t, 'bo': bo}, 'shape': [n] + tail, 'seed': n, 'how': 'asarray', 'mode': 'r+', 'meta': False,
+                                     'layout': 'C', 'chunklen': 50},
+                           'ops': [{'o': 'trunc', 'i': k, 'by': 'obj' if n % 3 else 'str'}, {'o': 'append', 'arg': {'k': 'rows', 'n': 1, 'seed': 1}}]}
+
+
 def trunc_index(tok, n):
+    if isinstance(tok, str) and tok.startswith('f:'):
+        return int(n * float(tok[2:]))
     if isinstance(tok, str) and tok.startswith('np:'):
         t = np.dtype(tok[3:])
         return t.type(min(n // 2, np.iinfo(t).max))
@@ -510,6 +529,54 @@ class ArrayRun:
                 return False
             self.m = newm
             return self.observe(tag)
+        if o == 'overwrite-refused':
+            # a re-creation over the array (overwrite=True) that is refused because of its element type: nothing may have changed
+            if getattr(self, 'in_ctx', False):
+                return True
+            self.kinds.append('overwrite-refused')
+            self.out.cls('overwrite-refused')
+            bad = {'strings': ['a', 'b'], 'bools': np.array([True, False]), 'objects': np.array([object(), None], dtype=object),
+                   'structured': np.zeros(2, dtype=[('x', 'i4'), ('y', 'f8')])}[op['what']]
+            before = snapshot(self.path)
+            try:
+                darr.asarray(self.path, bad, overwrite=True)
+            except Exception:
+                pass
+            else:
+                self.out.viol('no-raise', 'overwrite-refused:' + op['what'], f'step {self.stepno}: asarray of {op["what"]} over the array did not raise')
+                return False
+            after = snapshot(self.path)
+            if after != before:
+                self.out.viol('rejected-but-changed', 'overwrite-refused:' + op['what'], f'step {self.stepno}: ' + '; '.join(diff(before, after)))
+                return False
+            return self.observe('overwrite-refused')
+        if o == 'meta-own-mode':
+            # the handle stays read-only; only its metadata object is switched to r+ (a documented attribute), then keys come and go
+            if getattr(self, 'in_ctx', False):
+                return True
+            self.kinds.append('meta')
+            self.out.cls('metadata-changed-through-its-own-accessmode')
+            oldmode = a.accessmode
+            try:
+                a.accessmode = 'r'
+                a.metadata.accessmode = 'r+'
+                if op['a'] == 'set':
+                    if not self.meta:
+                        self.out.cls('meta-created')
+                    a.metadata[op['k']] = 7.5
+                    self.meta[op['k']] = 7.5
+                else:
+                    for kk in list(self.meta):
+                        a.metadata.pop(kk)
+                        del self.meta[kk]
+                        if not self.meta:
+                            self.out.cls('meta-deleted')
+            except Exception as e:
+                self.out.viol('valid-call-raised', f'meta-own-mode:{type(e).__name__}', f'step {self.stepno}: {type(e).__name__}: {e}')
+                return False
+            finally:
+                a.accessmode = oldmode
+            return self.observe('meta-own-mode:' + op['a'])
         if o == 'recreate':
             # the array is deleted and the SAME array (same start state, hence same type, shape and metadata presence) is created
             # again at the same path in the same process
